@@ -433,4 +433,63 @@ theorem find?_perm_nodup {α β : Type} [BEq α] [LawfulBEq α] (l₁ l₂ : Lis
       rw [hk, h1] at this
       cases this
 
+/-! ### first hit of a probe sequence, sublists of a duplicate-free list -/
+
+/-- `find?` does not see the order of the list when at most one element satisfies the predicate -/
+theorem find?_perm_unique {α : Type} (p : α → Bool) (l₁ l₂ : List α) (hp : l₁.Perm l₂)
+    (hu : ∀ a b, a ∈ l₁ → b ∈ l₁ → p a = true → p b = true → a = b) : l₁.find? p = l₂.find? p := by
+  induction hp with
+  | nil => rfl
+  | cons x _ ih =>
+    simp only [List.find?_cons]
+    cases p x with
+    | true => rfl
+    | false =>
+      exact ih (fun a b ha hb => hu a b (List.mem_cons_of_mem _ ha) (List.mem_cons_of_mem _ hb))
+  | swap x y l =>
+    simp only [List.find?_cons]
+    cases hx : p x with
+    | false => rfl
+    | true =>
+      cases hy : p y with
+      | false => rfl
+      | true =>
+        have : y = x := hu y x (by simp) (by simp) hy hx
+        rw [this]
+  | trans h₁ _ ih₁ ih₂ =>
+    rw [ih₁ hu]
+    exact ih₂ (fun a b ha hb => hu a b (h₁.mem_iff.mpr ha) (h₁.mem_iff.mpr hb))
+
+/-- a sublist of a duplicate-free list is determined by its elements -/
+theorem sublist_eq_filter_mem {α : Type} [DecidableEq α] {l p : List α} (h : l.Sublist p) (hn : p.Nodup) :
+    l = p.filter (fun x => decide (x ∈ l)) := by
+  induction h with
+  | slnil => rfl
+  | @cons l' p' a hs ih =>
+    have hn' := (List.nodup_cons.mp hn)
+    have ha : a ∉ l' := fun hm => hn'.1 (hs.subset hm)
+    rw [List.filter_cons]
+    simp only [ha, decide_false, Bool.false_eq_true, if_false]
+    exact ih hn'.2
+  | @cons_cons l' p' a hs ih =>
+    have hn' := (List.nodup_cons.mp hn)
+    rw [List.filter_cons]
+    simp only [List.mem_cons, true_or, decide_true, if_true]
+    congr 1
+    have e : p'.filter (fun x => decide (x = a ∨ x ∈ l')) = p'.filter (fun x => decide (x ∈ l')) := by
+      apply List.filter_congr
+      intro x hx
+      have : x ≠ a := fun h => hn'.1 (h ▸ hx)
+      simp [this]
+    rw [e]
+    exact ih hn'.2
+
+/-- two sublists of a duplicate-free list with the same elements are the same list -/
+theorem sublist_perm_eq {α : Type} [DecidableEq α] {l₁ l₂ p : List α} (h₁ : l₁.Sublist p) (h₂ : l₂.Sublist p)
+    (hp : l₁.Perm l₂) (hn : p.Nodup) : l₁ = l₂ := by
+  rw [sublist_eq_filter_mem h₁ hn, sublist_eq_filter_mem h₂ hn]
+  apply List.filter_congr
+  intro x _
+  simp [hp.mem_iff]
+
 end Ford.Order
